@@ -29,6 +29,18 @@ MUTANTS = [
     ("chain_tail_length", "libyara/scan.c", "          match->match_length = (int32_t) (match_offset - match->offset +\n                                           match_length);", "          match->match_length = (int32_t) (match_offset - match->offset);", "C02"),
     ("fullword_after_wide", "libyara/scan.c", "      if (match_offset + match_length + 1 < callback_args->data_size &&\n          *(match_data + match_length + 1) == 0 &&", "      if (match_offset + match_length + 2 < callback_args->data_size &&\n          *(match_data + match_length + 1) == 0 &&", "C03"),
     ("literal_nocase_table", "libyara/re.c", "          match = yr_lowercase[*input] == yr_lowercase[*(ip + 1)];", "          match = yr_lowercase[*input] == *(ip + 1);", "C03"),
+    ("atoms_choose_ignores_shift", "libyara/atoms.c", "      item->forward_code_ref = node->re_nodes[shift]->forward_code_ref;", "      item->forward_code_ref = node->re_nodes[0]->forward_code_ref;", "C02"),
+    ("hex_not_byte_lexer", "libyara/hex_lexer.l", "\\~\\?{hexdigit}  {\n\n  yytext[1] = '0'; // replace ? by 0\n  yylval->integer = xtoi(&(yytext[1])) | 0x0F00 ;", "\\~\\?{hexdigit}  {\n\n  yytext[1] = '0'; // replace ? by 0\n  yylval->integer = xtoi(&(yytext[1])) | 0xF000 ;", "C02"),
+    ("chain_prune_too_eager", "libyara/scan.c", "      if (ending_offset + matching_string->chain_gap_max < lowest_offset)", "      if (ending_offset + matching_string->chain_gap_max <= lowest_offset)", "C02"),
+    ("update_chain_len_gap", "libyara/scan.c", "    if (ending_offset + string->chain_gap_max >= match_to_update->offset &&\n        ending_offset + string->chain_gap_min <= match_to_update->offset)", "    if (ending_offset + string->chain_gap_max > match_to_update->offset &&\n        ending_offset + string->chain_gap_min <= match_to_update->offset)", "C02"),
+    ("re_range_any_min", "libyara/re.c", "      if (fiber->rc < repeat_any_args->min)\n      {", "      if (fiber->rc + 1 < repeat_any_args->min)\n      {", "C02"),
+    ("fast_backward_start", "libyara/re.c", "  if (flags & RE_FLAGS_BACKWARDS)\n    first->input--;", "  if (flags & RE_FLAGS_BACKWARDS)\n    first->input -= (input_backwards_size > 3 ? 1 : 0) + (input_backwards_size == 7);", "C02"),
+    ("word_char_underscore", "libyara/re.c", "  int result = ((yr_isalnum(input) || (*input) == '_'));", "  int result = ((yr_isalnum(input) || (*input) == '-'));", "C03"),
+    ("space_class_vt", "libyara/re.c", "        case '\\v':\n        case '\\f':\n          match = true;", "        case '\\f':\n          match = true;", "C03"),
+    ("re_lexer_range_hi", "libyara/re_lexer.l", "  yylval->range = (hi_bound << 16) | lo_bound;", "  yylval->range = ((hi_bound > 4 ? hi_bound - 1 : hi_bound) << 16) | lo_bound;", "C03"),
+    ("alt_jump_offset", "libyara/re.c", "    jmp_offset = (int16_t) (bookmark_1 - jmp_instruction_ref.offset);\n\n    // Update offset for jmp instruction.", "    jmp_offset = (int16_t) (bookmark_1 - jmp_instruction_ref.offset);\n    if (flags & EMIT_BACKWARDS) jmp_offset += 0; else if (jmp_offset > 12) jmp_offset -= 2;\n\n    // Update offset for jmp instruction.", "C03"),
+    ("verify_forward_size", "libyara/scan.c", "        data + offset,\n        data_size - offset,\n        offset,\n        flags,\n        NULL,\n        NULL,\n        &callback_args.forward_matches));\n\n    if (callback_args.forward_matches != -1 && ac_match->backward_code != NULL)\n    {\n      FAIL_ON_ERROR(exec(\n          context,\n          ac_match->backward_code,\n          data + offset,\n          data_size - offset,\n          offset,\n          flags | RE_FLAGS_BACKWARDS | RE_FLAGS_EXHAUSTIVE,",
+     "        data + offset,\n        data_size - offset - (data_size - offset > 9 ? 1 : 0),\n        offset,\n        flags,\n        NULL,\n        NULL,\n        &callback_args.forward_matches));\n\n    if (callback_args.forward_matches != -1 && ac_match->backward_code != NULL)\n    {\n      FAIL_ON_ERROR(exec(\n          context,\n          ac_match->backward_code,\n          data + offset,\n          data_size - offset,\n          offset,\n          flags | RE_FLAGS_BACKWARDS | RE_FLAGS_EXHAUSTIVE,", "C02"),
     ("anchor_start_backward", "libyara/re.c", "          kill = input_backwards_size > (size_t) bytes_matched;", "          kill = input_backwards_size >= (size_t) bytes_matched;", "C03"),
 ]
 
